@@ -232,7 +232,12 @@ def check(case):
             # every other frame has a depth-2 index, so the per-label configurations differ from one another and from the default
             frames = [sf.Frame(np.array([[i * 100 + 1, i * 7], [3, i]]), columns=('a', 'b'), name='f%d' % i,
                                index=('x', 'y') if i % 2 == 0 else sf.IndexHierarchy.from_labels((('x', 0), ('y', 1)))) for i in range(n)]
-            bus = sf.Bus.from_frames(frames)
+            # (labels are the names the frames were built with; the frames stored under them are renamed for the pickle format,
+            # which keeps a frame's own name: every other frame is stored unnamed, the others under another name)
+            if case['fmt'] == 'zip_pickle':
+                bus = sf.Bus.from_items((f.name, f.rename(None if i % 2 else 'own-%d' % i)) for i, f in enumerate(frames))
+            else:
+                bus = sf.Bus.from_frames(frames)
             fmt = case['fmt']
             writer = 'to_' + fmt
             reader = 'from_' + fmt
